@@ -248,6 +248,27 @@ def append_loops(tree):
     return n_done
 
 
+def sum_loops(tree):
+    """`x = 0` ; `for T in IT: x += E`  ->  `x = sum(E for T in IT)`"""
+    n_done = 0
+    for holder, blk in list(_all_blocks(tree)):
+        i = 0
+        while i < len(blk) - 1:
+            a, b = blk[i], blk[i + 1]
+            if isinstance(a, ast.Assign) and len(a.targets) == 1 and isinstance(a.targets[0], ast.Name) and isinstance(a.value, ast.Constant) and a.value.value == 0 \
+                    and type(a.value.value) is int and isinstance(b, ast.For) and not b.orelse and len(b.body) == 1 and isinstance(b.body[0], ast.AugAssign) \
+                    and isinstance(b.body[0].op, ast.Add) and isinstance(b.body[0].target, ast.Name) and b.body[0].target.id == a.targets[0].id \
+                    and not any(isinstance(n, ast.Name) and n.id == a.targets[0].id for n in ast.walk(b.body[0].value)) \
+                    and not any(isinstance(n, ast.Name) and n.id == a.targets[0].id for n in ast.walk(b.iter)):
+                gen = ast.GeneratorExp(elt=b.body[0].value, generators=[ast.comprehension(target=b.target, iter=b.iter, ifs=[], is_async=0)])
+                a.value = ast.fix_missing_locations(ast.copy_location(ast.Call(func=ast.Name(id="sum", ctx=ast.Load()), args=[gen], keywords=[]), b))
+                del blk[i + 1]
+                n_done += 1
+                continue
+            i += 1
+    return n_done
+
+
 def sort_method_to_sorted(tree):
     """`L = [e for ...]` (or `list(E)`) directly followed by `L.sort()` -> `L = sorted(e for ...)` (resp. `sorted(E)`)"""
     n_done = 0
